@@ -133,7 +133,8 @@ def reader_oracle(kind, seed, nops, kinds=None):
     for i in range(nops):
         try:
             d = editgen.apply(doc, seed, i, gen, kinds)
-        except Exception:
+        except Exception as e:
+            core.note_skip('c06:edit', e)
             return None
         if d:
             hist.append(d)
